@@ -221,6 +221,11 @@ func (q *qhDeliveryPartial) BodyNonAtomic(ctx context.Context, sc module.StatusC
 
 func (q *qhDelivery) Abort(ctx context.Context) error {
 	d := q.d
+	if d.Closed == "commit" && !d.CommitOK {
+		// clean-up after a failed Commit: the interface contract does not forbid it
+		d.Events = append(d.Events, "abort-after-failed-commit")
+		return nil
+	}
 	if d.Closed != "" {
 		q.t.bad(d, "Abort after "+d.Closed)
 	}
